@@ -374,3 +374,23 @@ Fixpoint tagmap_run_from (t : tagmap) (ops : list tagmap_op) : list (obs N N) * 
   end.
 Definition tagmap_run (ops : list tagmap_op) : list (obs N N) * tagmap :=
   tagmap_run_from (table0 N N) ops.
+
+(* specification level for TagMap: a map with the identity as default; set(k, k) removes k *)
+Definition tm_spec_step (m : amap N N) (o : tagmap_op) : obs N N * amap N N :=
+  match o with
+  | OpSet k v => if k =? v then (ObsUnit, aremove N N N.eqb m k)
+                 else (ObsUnit, (k, v) :: aremove N N N.eqb m k)
+  | OpGet k => (ObsVal (Some (match alookup N N N.eqb m k with Some v => v | None => k end)), m)
+  | _ => spec_step N N N.eqb m o
+  end.
+Fixpoint tm_spec_from (m : amap N N) (ops : list tagmap_op) : list (obs N N) :=
+  match ops with
+  | [] => []
+  | o :: rest => fst (tm_spec_step m o) :: tm_spec_from (snd (tm_spec_step m o)) rest
+  end.
+Definition tagmap_run_spec (ops : list tagmap_op) : list (obs N N) := tm_spec_from [] ops.
+
+(* boolean form of the side condition of the refinement theorem (TableProofs.params_ok) *)
+Definition params_okb (initial growth thr : nat) : bool :=
+  Nat.leb 1 thr && Nat.leb thr 5 && Nat.leb 2 growth && Nat.leb 2 initial &&
+  (Nat.leb 10 (growth * thr) || Nat.leb 10 (initial * thr)).
